@@ -770,6 +770,34 @@ class ExtLib:
 
     c_numpy_max = c_numpy_amax
 
+    def c_numpy_amin(self, a, k, n, ms):
+        """minimum of a view with a small known number of elements: the nested minimum of its elements (a column of marker
+        indices); any other view gets a reduction symbol like amax"""
+        v = a[0]
+        if isinstance(v, Arr) and not k and len(a) == 1 and v.ndim == 1 and isinstance(simplify_scalar(v.shape[0]), int) \
+                and 1 <= simplify_scalar(v.shape[0]) <= 4:
+            fixed = []
+            pos = None
+            for j, ax in enumerate(v.axes):
+                if ax[0] == "r":
+                    pos = j
+            els = []
+            for t in range(simplify_scalar(v.shape[0])):
+                idx = tuple(ax[1] if ax[0] == "i" else ax[1] + pconst(t) for ax in v.axes)
+                els.append(self.element_value(Arr(v.alloc), idx, n, ms))
+            out = els[0]
+            for e in els[1:]:
+                out = simplify_scalar(self.scalar_op("minimum", [out, e]))
+            return out
+        self.I.trace.append(Op("NumpyOp", fn="amin", reads=[v], out=None, meta={}, where=self.I.where(n, ms),
+                               stack=tuple(self.I.call_stack), args=[v]))
+        name = "amin(%s)" % v.alloc.label
+        self.reductions = getattr(self, "reductions", {})
+        self.reductions[name] = ("amin", v)
+        return psym(name)
+
+    c_numpy_min = c_numpy_amin
+
     def c_numpy_shares_memory(self, a, k, n, ms):
         """exact overlap test: distinct parameters of a public kernel are distinct arrays (A8)"""
         x, y = a[0], a[1]
